@@ -17,7 +17,7 @@ def domE (p : Pos) : String := " s.dom=" ++ boolStr (Fide.wellFormed (absPos p) 
 
 /-- `eval <fenhex> <mirrorfenhex>` -/
 def opEval (args : List String) : String :=
-  match args with
+  match args.take 2 with
   | [h, hm] =>
     match parsePos h, parsePos hm with
     | .ok p, .ok q =>
@@ -211,6 +211,7 @@ namespace Driver
 numbers of go and isready commands sent -/
 def opConc (args : List String) : String :=
   let gos := (args.filter fun t => t.startsWith "G").length
-  let readys := (args.filter (· = "R")).length
+  let readys := (args.filter (· = "R")).length +
+    (args.filterMap fun t => if t.startsWith "RR" then (t.drop 2).toNat? else none).sum
   s!"m.out=b{gos},r{readys}"
 end Driver
